@@ -309,6 +309,48 @@ def _T(st, s):
     return Term(items_from(st, s))
 
 
+class HistoryDependent(Exception):
+    """a term operation gave another result after its operands had been used"""
+
+
+def _hist_indep(st, build, specs):
+    """Run `build(*terms)` with fresh operands, with operands whose caches were
+    warmed (hash, ==, normalized() called before) and with the operands'
+    normal forms as operands: results must not depend on what was evaluated
+    before (the cached normal form / hash of a term are memoised on first
+    use).  Returns the result for fresh operands."""
+    fresh = build(*[_T(st, a) for a in specs])
+    ref_items = show_items(fresh.items)
+    ref_norm = show_items(fresh.normalized().items)
+    warm = []
+    for a in specs:
+        t = _T(st, a)
+        hash(t)
+        t == t          # noqa: B015
+        t.normalized()
+        warm.append(t)
+    r = build(*warm)
+    if show_items(r.items) != ref_items or show_items(r.normalized().items) != ref_norm \
+            or not (r == fresh) or hash(r) != hash(fresh):
+        raise HistoryDependent(f"warmed operands: {show_items(r.items)} / "
+                               f"{show_items(r.normalized().items)} vs {ref_items} / {ref_norm}")
+    # the result itself, used once, stays what it was
+    r2 = build(*[_T(st, a) for a in specs])
+    hash(r2)
+    if show_items(r2.normalized().items) != ref_norm or show_items(r2.items) != ref_items:
+        raise HistoryDependent("result changed after hashing")
+    # operands given as their own normal forms (order of same-key elements may
+    # differ: compare the normal forms as multisets)
+    try:
+        nf = [_T(st, a).normalized() for a in specs]
+    except Exception:  # noqa: BLE001
+        return fresh
+    r3 = build(*nf)
+    if sorted(show_items(r3.normalized().items).split(";")) != sorted(ref_norm.split(";")):
+        raise HistoryDependent(f"normal-form operands: {show_items(r3.normalized().items)} vs {ref_norm}")
+    return fresh
+
+
 @op("t_mk")
 def _t_mk(st, a):
     return "ok " + show_items(_T(st, a).items)
@@ -321,12 +363,12 @@ def _t_norm(st, a):
 
 @op("t_mul")
 def _t_mul(st, a, b):
-    return "ok " + show_items((_T(st, a) * _T(st, b)).items)
+    return "ok " + show_items(_hist_indep(st, lambda x, y: x * y, [a, b]).items)
 
 
 @op("t_div")
 def _t_div(st, a, b):
-    return "ok " + show_items((_T(st, a) / _T(st, b)).items)
+    return "ok " + show_items(_hist_indep(st, lambda x, y: x / y, [a, b]).items)
 
 
 def _scalar(st, q):
@@ -343,22 +385,22 @@ def _t_scale(st, q, a):
 
 @op("t_divs")
 def _t_divs(st, a, q):
-    return "ok " + show_items((_T(st, a) / _scalar(st, q)).items)
+    return "ok " + show_items(_hist_indep(st, lambda x: x / _scalar(st, q), [a]).items)
 
 
 @op("t_rdivs")
 def _t_rdivs(st, q, a):
-    return "ok " + show_items((_scalar(st, q) / _T(st, a)).items)
+    return "ok " + show_items(_hist_indep(st, lambda x: _scalar(st, q) / x, [a]).items)
 
 
 @op("t_pow")
 def _t_pow(st, a, n):
-    return "ok " + show_items((_T(st, a) ** int(n)).items)
+    return "ok " + show_items(_hist_indep(st, lambda x: x ** int(n), [a]).items)
 
 
 @op("t_recip")
 def _t_recip(st, a):
-    return "ok " + show_items(_T(st, a).reciprocal().items)
+    return "ok " + show_items(_hist_indep(st, lambda x: x.reciprocal(), [a]).items)
 
 
 def _b(x):
@@ -434,6 +476,23 @@ def opt_str(s):
 
 
 def amount_of(tok):
+    if tok.startswith("I:"):          # a plain Python int
+        fr = parse_rat(tok[2:])
+        assert fr.denominator == 1
+        return int(fr)
+    if tok.startswith("L:"):          # a float with exactly this value
+        fr = parse_rat(tok[2:])
+        f = float(fr)
+        assert _F(f) == fr, "token is not a float value"
+        return f
+    if tok.startswith("P:"):          # a standard library Decimal
+        import decimal
+        fr = parse_rat(tok[2:])
+        with decimal.localcontext() as c:
+            c.prec = 2000
+            dv = decimal.Decimal(fr.numerator) / decimal.Decimal(fr.denominator)
+        assert _F(dv) == fr, "token is not a finite decimal"
+        return dv
     if tok.startswith("F:"):
         return parse_rat(tok[2:])
     if tok.startswith("D:"):
@@ -680,6 +739,15 @@ def _load_predefined(st):
     return "ok failed=0"
 
 
+@op("prefix")
+def _prefix(st, const):
+    import quantity.si_prefixes as sp
+    p = getattr(sp, const)
+    # the prefix must also be the one found under its factor, and scale a unit by it
+    assert sp.SI_PREFIX_MAP[p.factor] is p
+    return f"ok {p.name} {p.abbr} {rat(p.factor)}"
+
+
 @op("conv_table")
 def _conv_table(st, cls, rows):
     from quantity import TableConverter
@@ -738,10 +806,23 @@ def _q_sum(st, items, d):
     from quantity import sum as qsum
     with dflt_mode(d):
         qs = [] if items == "-" else [qty_of(t) for t in items.split(",")]
-        r = qsum(qs)
-        if isinstance(r, Quantity):
-            return "ok qty " + show_qty(r)
-        return "ok num " + num_str(r)
+
+        def show(fn):
+            try:
+                r = fn()
+            except Exception as exc:  # noqa: BLE001
+                return "err " + err_name(exc)
+            if isinstance(r, Quantity):
+                return "ok qty " + show_qty(r)
+            return "ok num " + num_str(r)
+
+        # any iterable is accepted: a list, a tuple, a one-shot iterator and a
+        # generator must all give the same result
+        res = [show(lambda: qsum(qs)), show(lambda: qsum(tuple(qs))),
+               show(lambda: qsum(iter(qs))), show(lambda: qsum(q for q in qs))]
+        if len(set(res)) != 1:
+            return "ok DIFFERENT list=%s tuple=%s iter=%s gen=%s" % tuple(res)
+        return res[0]
 
 
 @op("q_hash")
@@ -959,7 +1040,13 @@ def _specs(s):
 @op("mc_update")
 def _mc_update(st, name, vs, specs, d):
     with dflt_mode(d):
-        st.obj["mc", name].update(_vspell(vs), _specs(specs))
+        sp = _specs(specs)
+        # the documented parameter type is Iterable[RateSpec]: hand the specs
+        # over as a list, a tuple, a one-shot iterator or a generator in turn
+        st.n_updates = getattr(st, "n_updates", 0) + 1
+        k = st.n_updates % 4
+        arg = sp if k == 1 else tuple(sp) if k == 2 else iter(sp) if k == 3 else (x for x in sp)
+        st.obj["mc", name].update(_vspell(vs), arg)
     return "ok"
 
 
@@ -1045,6 +1132,33 @@ def _q_alloc(st, a, ratios, disp, d):
             assert type(p.amount) in (Decimal, _F)
         return (f"ok {','.join(rat(p.amount) for p in portions)}@{qa.unit.symbol}:"
                 f"{type(qa).__name__} rem={rat(rem.amount)}")
+
+
+@op("q_alloc_cmp")
+def _q_alloc_cmp(st, a, ratios, other, d):
+    """portions of an allocation (objects adjusted in place by the dispersal)
+    compare with a freshly built equal quantity in ANOTHER unit exactly as their
+    amounts say"""
+    with dflt_mode(d):
+        qa = qty_of(a)
+        rs = []
+        for t in ([] if ratios == "-" else ratios.split(",")):
+            rs.append(to_dec_or_frac(parse_rat(t[2:])) if t.startswith("n:") else qty_of(t[2:]))
+        portions, rem = qa.allocate(rs, True)
+        ou = Unit(other)
+        bad = []
+        for i, p in enumerate(list(portions) + [rem]):
+            twin = type(p)(p.amount, p.unit).convert(ou)
+            if twin.convert(p.unit).amount != p.amount:
+                continue        # the other unit's grid cannot hold this amount
+            got = (p == twin, p != twin, p < twin, p <= twin, p > twin, p >= twin,
+                   twin == p, twin < p, twin > p, hash(p) == hash(twin))
+            if got != (True, False, False, True, False, True, True, False, False, True):
+                bad.append(f"{i}:{rat(p.amount)}{p.unit.symbol}~{rat(twin.amount)}{ou.symbol}:{got}")
+            bigger = type(p)(p.amount + (1 if p.unit.quantum is None else p.unit.quantum), p.unit).convert(ou)
+            if not (p < bigger and bigger > p and p != bigger):
+                bad.append(f"{i}:order")
+        return "ok true" if not bad else "ok false " + ";".join(bad)
 
 
 @op("q_str")
